@@ -96,6 +96,17 @@ def phi_cdf(z):
     return 0.5 * (1.0 + math.erf(z / math.sqrt(2.0)))
 
 
+def log_normal_mass(a, b):
+    """log(Phi(b) - Phi(a)) for a < b, evaluated in the tail the window lies in (erfc keeps its relative accuracy there; the difference of
+    two cdf values next to 1 would cancel)"""
+    r2 = math.sqrt(2.0)
+    if a > 0:
+        return math.log(0.5 * (math.erfc(a / r2) - math.erfc(b / r2)))
+    if b < 0:
+        return math.log(0.5 * (math.erfc(-b / r2) - math.erfc(-a / r2)))
+    return math.log(phi_cdf(b) - phi_cdf(a))
+
+
 def own_log_prior(spec, x):
     k = spec["family"]
     if k == "Uniform":
@@ -108,7 +119,7 @@ def own_log_prior(spec, x):
         if not (spec["low"] <= x <= spec["up"]):
             return -math.inf
         a, b = (spec["low"] - spec["mu"]) / spec["sig"], (spec["up"] - spec["mu"]) / spec["sig"]
-        return -0.5 * math.log(2 * math.pi) - math.log(spec["sig"]) - 0.5 * ((x - spec["mu"]) / spec["sig"]) ** 2 - math.log(phi_cdf(b) - phi_cdf(a))
+        return -0.5 * math.log(2 * math.pi) - math.log(spec["sig"]) - 0.5 * ((x - spec["mu"]) / spec["sig"]) ** 2 - log_normal_mass(a, b)
     if k == "Distribution":       # pba.Distribution('uniform', (a, b))
         a, b = spec["params"]
         return -math.log(b - a) if a <= x <= b else -math.inf
@@ -132,6 +143,10 @@ def gen_prior(rng):
         return {"family": k, "sig": rng.choice([0.5, 1.0, 2.0])}
     if k == "TruncatedNormal":
         mu = rng.choice([0.0, 1.0])
+        if rng.random() < 0.35:      # a truncation window far out in one tail of the parent normal (either side)
+            sig, t, sgn = rng.choice([0.05, 0.5, 1.0]), rng.choice([5.5, 6.0, 7.0, 8.5]), rng.choice([-1, 1])
+            lo_, up_ = sorted([mu + sgn * t * sig, mu + sgn * (t + rng.choice([0.5, 1.0, 2.0])) * sig])
+            return {"family": k, "mu": mu, "sig": sig, "low": lo_, "up": up_}
         return {"family": k, "mu": mu, "sig": rng.choice([0.5, 1.0, 2.0, 3.0]), "low": mu - rng.choice([1.0, 0.5]), "up": mu + rng.choice([1.0, 2.0])}
     a = rng.choice([0.0, -1.0])
     return {"family": k, "params": [a, a + rng.choice([1.0, 2.0])]}
